@@ -142,7 +142,8 @@ def _bfs_edges_rust(
             return Result(list(result["path"]), len(result["path"]) - 1, result["iterations"], 0)
         return Result(None, float("inf"), result["iterations"], 0, Status.INFEASIBLE)
 
-    return Result(list(result["visited_order"]), 0, result["iterations"], 0)
+    # Same value as the Python backend: the reachable nodes as a sorted list
+    return Result(sorted(result["visited_order"]), 0, result["iterations"], 0)
 
 
 @rust_adapter("dfs_edges")
@@ -163,7 +164,8 @@ def _dfs_edges_rust(
             return Result(list(result["path"]), len(result["path"]) - 1, result["iterations"], 0)
         return Result(None, float("inf"), result["iterations"], 0, Status.INFEASIBLE)
 
-    return Result(list(result["visited_order"]), 0, result["iterations"], 0)
+    # Same value as the Python backend: the reachable nodes as a sorted list
+    return Result(sorted(result["visited_order"]), 0, result["iterations"], 0)
 
 
 @rust_adapter("pagerank_edges")
